@@ -72,7 +72,7 @@ class CloneFitted(CloneFittedBase):
 
 
 META = dict(
-    level="proof", assumptions=["A1", "A2", "A6", "A7", "A8", "A9"],
+    level="proof", lean_files=["lemmas/Sums.lean"], assumptions=["A1", "A2", "A6", "A7", "A8", "A9"],
     trusted=["the assumed contracts of C08/C10/C15/C17 (estimator protocol: outputs are deterministic functions of fitted state and row; transform_bins: contract proved under C08, used here as a summary)",
              "row extensionality; copy.deepcopy copies arrays/lists; sklearn.base.clone copies constructor parameters and clones nested estimators"],
     not_applicable=["pickle round trips (and the Cython criteria's __reduce__): no contract within reach expresses pickling - bounded stand-in",
